@@ -39,7 +39,8 @@ def run(rep: Report, ctx: Any) -> str:
                       "the same text under the same conditions")
     rep.rule("R02.2", "both directions exist for every non-identity kind: if the Python type differs from the JSON type the template "
                       "defines construct and transform; construct_function is routed through construct_template; list and union call "
-                      "construct / transform of the template imported for their inner property, with that inner property")
+                      "construct / transform of the template imported for their inner property, with that inner property (the template "
+                      "imported where the call is made, or handed on together with the member in a sequence made from the members)")
     rep.rule("R02.3", "plain JSON out: in every text the transform macro of a non-identity kind can print (every combination of its "
                       "conditions; set variables and blocks, macros of this or an imported template, call blocks followed) the destination "
                       "is assigned something else than UNSET, and no such assignment has the bare source as its value unless a later "
@@ -416,12 +417,15 @@ def run(rep: Report, ctx: Any) -> str:
     rep.rule("R02.6", "a composed (allOf) child never mutates the property objects it inherits: the parent's own decode/encode is unchanged")
     check_no_parent_mutation(rep, ctx, "R02.6")
     rep.rule("R02.7", "union decode falls through: a member that has a type check is decoded in terminal form (no try/except around its "
-                      "construct) only when it is the last member and no pass-through member was seen before it")
+                      "construct) only when it is the last member and no pass-through member was seen before it (seen: a namespace flag set "
+                      "where a member's template has no construct, or the selection of exactly those members being empty)")
     _union_fallthrough(rep, jx)
     rep.rule("R02.8", "union members are tried in document order: the list given to UnionProperty(inner_properties=...) is assembled in single "
                       "passes (no second pass over the same sequence, i.e. no partition), never sorted / made a set, and arrives the right "
                       "way round (reversed / [::-1] / taking from the end / putting in front cancel in pairs; a work list is refilled at "
-                      "the end it is consumed at); the decode loop iterates property.inner_properties itself")
+                      "the end it is consumed at); the decode loop iterates property.inner_properties itself, or a selection of it in the same "
+                      "order that holds exactly the members whose template has a construct (a call-block parameter that the called macro "
+                      "fills from a namespace list, extended at its end in one loop over the whole member list)")
     _member_order(rep, ix)
     rep.rule("R02.9", "whatever collects a property's imports for a model module collects its lazy imports on the same paths (the model "
                       "classes that the emitted decode/encode code names are imported lazily); a kind that forwards get_imports to its inner "
@@ -429,7 +433,8 @@ def run(rep: Report, ctx: Any) -> str:
     _imports_parity(rep, ix)
     rep.rule("R02.11", "the parsed document is not rewritten behind the builders' back: every in-place write to a field of a document object "
                        "(a class of the package that defines Schema; receiver found by its abstract type, wherever the write is made: "
-                       "attribute store, mutating call on the field or an alias of it, setattr, the result of a pydantic validator) is one "
+                       "attribute store, mutating call on the field or an alias of it, setattr - the field being every text the name "
+                       "argument can be, by its abstract value -, the result of a pydantic validator) is one "
                        "of the writes frozen in DOCUMENT_WRITERS - the fields that say which values are valid (enum, const, properties, "
                        "required, items, ...) reach the builders as the document wrote them")
     _document_frame(rep, ix, it)
